@@ -77,18 +77,22 @@ def analyse_generator(ctx, prover, alt, samplers):
         info['per_element'] = not ctx.shape_adapters(a[1])
         info['range'] = canon(strip(a[1]))
         el = eng.apply(a[2], (T('index', strip(a[1])),))
-        info['site'] = a[2][1]
+        info['site'] = (a[2][1], tuple(a[2][3]) if len(a[2].args) > 2 else ())
     elif alt.tag == 'mut' and a.tag == 'call' and a[1].split('::')[-1] in ('with_capacity', 'new'):
         pushes = [e for e in alt[2] if e.tag == 'ev' and e[2].endswith('::push')]
         fills = [e for e in alt[2] if e.tag == 'ev' and e[2].split('::')[-1] in ('extend', 'extend_from_slice', 'append', 'resize', 'insert')]
         if len(pushes) == 1 and not fills:
-            bb = pushes[0][4][0][1]
-            lps = ctx.enclosing_loops(prover, bb)
+            # the push may sit in a private helper the vector was built by: its frame rewrites the loop bound into the prover's terms
+            bkey, bb = pushes[0][4][-1]
+            fr = next((f for f in ctx.frames(prover, stop=set(nonce_fns(ctx)) | set(samplers)) if f.body.key == bkey and tuple(f.site) == tuple(pushes[0][4][:-1])), None)
+            pbody = fr.body if fr is not None else prover
+            lps = ctx.enclosing_loops(pbody, bb)
             if lps and lps[-1].iter_term is not None and strip(lps[-1].iter_term).tag == 'range':
-                info['per_element'] = not ctx.shape_adapters(lps[-1].iter_term) and ctx.every_iteration(prover, lps[-1], bb)
-                info['range'] = canon(strip(lps[-1].iter_term))
+                itl = fr.lift(lps[-1].iter_term) if fr is not None else lps[-1].iter_term
+                info['per_element'] = not ctx.shape_adapters(itl) and ctx.every_iteration(pbody, lps[-1], bb)
+                info['range'] = canon(strip(itl))
             el = pushes[0][3][0]
-            info['site'] = '%s@bb%d' % (prover.path, bb)
+            info['site'] = '%s@bb%d%s' % (pbody.path, bb, '' if len(pushes[0][4]) == 1 else '<-%s' % (tuple(pushes[0][4][:-1]),))
     if el is None:
         return [info]
     outs = []
@@ -149,7 +153,10 @@ def discover(ctx, prover, rule):
                 r.acc_roots = evs[0]['roots']
                 r.bb = evs[0]['bb']
                 roles.append(r)
+    stop = set(nonce_fns(ctx)) | set(samplers)
     for r in roles:
-        for alt in alternatives(r.vec):
+        # a vector produced by a private helper is analysed as what the helper returns
+        r.vec_expanded = eng.expand(r.vec, stop=stop)
+        for alt in alternatives(r.vec_expanded):
             r.alts.extend(analyse_generator(ctx, prover, alt if alt.tag != 'phi' else alt, samplers))
     return roles, samplers
